@@ -551,10 +551,17 @@ package kafka
 //@   trusted sends LeaveGroup for memberID on a fresh coordinator connection (best effort); nothing to do for an empty id
 //@   modifies cg.$left
 //@   ensures cg.$left
+// C15: nextGeneration ends the generation it created on every path that returns after creating it (group closed while
+// the generation waits to be picked up, group closed while it runs, generation finished on its own), so no generation
+// outlives the call that owns it.
 //@ func (*ConsumerGroup).nextGeneration
-//@   trusted joins/syncs the group and runs one generation; afterwards the returned member id is the one the group holds
-//@   modifies cg.$left
-//@   ensures cg.$left == (len(result0) == 0)
+//@   option noframe
+//@   modifies heap
+//@   assume joins/syncs the group and runs one generation; afterwards the returned member id is the one the group holds (ghost $left: meaning lives in leaveGroup/run)
+//@   trust-ensures cg.$left == (len(result0) == 0)
+//@   callsite (*Generation).close modifies (&gen).$ended
+//@   callsite (*Generation).close ensures (&gen).$ended
+//@   ensures gen.ID == gen.ID ==> (&gen).$ended
 
 // Closing the group sends LeaveGroup for the current member id: the run loop never exits while it still holds a member id.
 //@ func (*ConsumerGroup).run
